@@ -63,6 +63,7 @@ type envTweaks struct {
 	TinyMemory      bool  `json:"tiny_memory,omitempty"`       // derive the ingress plan under a 128 MiB memory limit (small UDP slab cap)
 	ZoneServers     []int `json:"zone_servers"`                // number of servers per zone
 	QnameMin        bool  `json:"qname_min,omitempty"`         // leave QNAME minimisation at its default level
+	ListenV6        bool  `json:"listen_v6,omitempty"`         // bind the listeners to [::1] (clients then all come from ::1)
 }
 
 type env struct {
@@ -154,7 +155,7 @@ func newEnv(tw envTweaks, iso int) (*env, error) {
 	st, err := stack.New(stack.Options{
 		Config:     cfg,
 		StopBefore: "-", // full production chain, no stub
-		Listen:     stack.Listen{Plain: true},
+		Listen:     stack.Listen{Plain: true, IP: listenIP(tw)},
 		LogLevel:   os.Getenv("VERIF_SDNS_LOG"),
 	})
 	if tw.TinyMemory {
@@ -176,6 +177,13 @@ func newEnv(tw envTweaks, iso int) (*env, error) {
 	h.VerifSetResolveTarget(e.t.u.Mapper())
 	e.h = h
 	return e, nil
+}
+
+func listenIP(tw envTweaks) string {
+	if tw.ListenV6 {
+		return "::1"
+	}
+	return "" // the stack's per-process 127.x.y.1
 }
 
 func tweakConfig(c *config.Config, tw envTweaks) {
